@@ -86,7 +86,7 @@ type otherRec struct {
 }
 
 var storePoints = []string{"create.beforeTxn", "create.inTxn", "create.afterCommit", "update.beforeTxn", "update.inTxn", "update.afterCommit",
-	"delete.beforeTxn", "delete.inTxn", "delete.afterCommit", "store.op", "badger.commit"}
+	"delete.beforeTxn", "delete.inTxn", "delete.afterCommit", "store.op", "badger.commit", "badger.view", "badger.update"}
 
 // StoreLinScenario: stores are per-id linearizable maps with exact change
 // callbacks (C11).
